@@ -1168,18 +1168,38 @@ pub fn cast(into: DataType) -> impl Function {
         ),
         DataType::Float(f) if f == data_type::Float::full() => Polymorphic::from((
             PartitionnedMonotonic::univariate(data_type::Integer::default(), |v| v as f64),
-            Pointwise::univariate(DataType::text(), DataType::float(), |v| {
-                v.to_string().parse::<f64>().unwrap().into()
-            }),
+            // A text that is not a number is an error, not a panic
+            Pointwise::new(
+                DataType::text(),
+                DataType::float(),
+                Arc::new(|v| {
+                    let text: String = v.try_into()?;
+                    text
+                        .parse::<f64>()
+                        .map(Value::from)
+                        .map_err(|_| Error::argument_out_of_range(text, DataType::float()))
+                }),
+            ),
         )),
         DataType::Integer(i) if i == data_type::Integer::full() => Polymorphic::from((
             PartitionnedMonotonic::univariate(data_type::Float::default(), |v| v.round() as i64),
-            Pointwise::univariate(DataType::text(), DataType::integer(), |v| {
-                v.to_string().parse::<i64>().unwrap().into()
-            }),
+            // A text that is not an integer is an error, not a panic
+            Pointwise::new(
+                DataType::text(),
+                DataType::integer(),
+                Arc::new(|v| {
+                    let text: String = v.try_into()?;
+                    text
+                        .parse::<i64>()
+                        .map(Value::from)
+                        .map_err(|_| Error::argument_out_of_range(text, DataType::integer()))
+                }),
+            ),
         )),
         DataType::Boolean(b) if b == data_type::Boolean::full() => Polymorphic::default().with(
-            Pointwise::univariate(DataType::text(), DataType::boolean(), |v| {
+            // A text that is not a boolean literal is an error, not a panic
+            Pointwise::new(DataType::text(), DataType::boolean(), Arc::new(|v| {
+                let v: String = v.try_into()?;
                 let true_list = vec![
                     "t".to_string(),
                     "tr".to_string(),
@@ -1203,13 +1223,13 @@ pub fn cast(into: DataType) -> impl Function {
                     "0".to_string(),
                 ];
                 if true_list.contains(&v.to_string().to_lowercase()) {
-                    true.into()
+                    Ok(true.into())
                 } else if false_list.contains(&v.to_string().to_lowercase()) {
-                    false.into()
+                    Ok(false.into())
                 } else {
-                    panic!()
+                    Err(Error::argument_out_of_range(v, DataType::boolean()))
                 }
-            }),
+            })),
         ),
         _ => todo!(),
     }
